@@ -731,7 +731,7 @@ class Machine:
                 return ("ptr", a[0][1], a[0][2] + lo * sz)
             cont, base = self.container(a[0])
             n = (a[0][3] - a[0][2]) if a[0][0] == "aslice" else len(cont)
-            kind = (c.ga or ["", ""])[-1]
+            kind = ([g for g in (c.ga or []) if isinstance(g, str) and "Range" in g] or [(c.ga or ["", ""])[-1]])[0]
             lo, hi = 0, n
             if "RangeFrom" in kind:
                 lo = r[0]
@@ -835,6 +835,41 @@ class Machine:
             if mm.group(4) == "be":
                 by = by[::-1]
             return {i: by[i] for i in range(len(by))}
+        mm = re.match(r"^core::num::<impl ([ui])(\d+)>::checked_(add|sub|mul)$", nm)
+        if mm and all(isinstance(x, int) and not isinstance(x, bool) for x in a[:2]):
+            w = int(mm.group(2))
+            r_ = {"add": a[0] + a[1], "sub": a[0] - a[1], "mul": a[0] * a[1]}[mm.group(3)]
+            lo_, hi_ = (0, (1 << w) - 1) if mm.group(1) == "u" else (-(1 << (w - 1)), (1 << (w - 1)) - 1)
+            return ("opt", 1, {0: r_}) if lo_ <= r_ <= hi_ else ("opt", 0, {})
+        # ---- Vec<T> as a growable array of concrete length: the container is the same dict an array local uses
+        if nm in ("core::iter::repeat", "core::iter::sources::repeat::repeat"):
+            return {"_it": "repeat", "v": a[0]}
+        if nm in ("alloc::vec::from_elem",) and isinstance(a[1], int):
+            return {i: a[0] for i in range(a[1])}
+        if re.search(r"^core::iter::(traits::iterator::)?Iterator::collect$", nm):
+            it = self.it_of(a[0])
+            out_ = {}
+            while True:
+                o, v = self.it_next(it)
+                if not o:
+                    break
+                while isinstance(v, tuple) and v and v[0] == "lref":
+                    v = v[1][v[2]]
+                out_[len(out_)] = _copy_value(v)
+                if len(out_) > 100000:
+                    raise Unsupported("collect of an unbounded iterator")
+            return out_
+        if re.search(r"^<alloc::vec::Vec<T(, A)?> as core::clone::Clone>::clone$", nm):
+            x = a[0]
+            while isinstance(x, tuple) and x and x[0] == "lref":
+                x = x[1][x[2]]
+            return _copy_value(x)
+        if re.search(r"^<alloc::vec::Vec<T(, A)?> as core::ops::Deref(Mut)?>::deref(_mut)?$", nm) or re.search(r"^alloc::vec::Vec::<T(, A)?>::as_(mut_)?slice$", nm):
+            cont, base, n = self.seq(a[0])
+            return ("aslice", cont, base, base + n)
+        if re.search(r"^alloc::vec::Vec::<T(, A)?>::(len|is_empty)$", nm):
+            n = self.seq(a[0])[2]
+            return n if nm.endswith("len") else n == 0
         mm = re.match(r"^core::num::<impl ([ui])(\d+)>::overflowing_(add|sub)$", nm)
         if mm:
             w = int(mm.group(2))
@@ -952,6 +987,8 @@ class Machine:
                 r[0] = v + 1
                 return True, v
             return False, None
+        if k == "repeat":
+            return True, it["v"]
         if k == "slice":
             if it["i"] < it["hi"]:
                 i = it["i"]
